@@ -812,3 +812,93 @@ def rule_encode_contents(ctx):
     rets = [r for r in walk_own(g.node) if isinstance(r, ast.Return) and isinstance(r.value, ast.Tuple) and 'int2oct' in norm(r.value)]
     ok = len(rets) == 1 and norm(rets[0].value.elts[0]) == 'int2oct(len(substrate) * 8 - valueLength) + substrate'
     ctx.ob('W.bitenc', g, 'initial octet = number of unused bits = 8 * octets - bit length', ok, norm(rets[0].value.elts[0]) if rets else '')
+
+
+# ------------------------------------------------------------------- W.realfmt
+
+def rule_real_format(ctx):
+    """W.realfmt: bit fields of the binary REAL first octet agree between encoder, decoder and X.690 8.5.7."""
+    d = ctx.func('codec.ber.decoder.RealPayloadDecoder.valueDecoder')
+    assigns = {}
+    for n in walk_own(d.node):
+        if isinstance(n, ast.Assign) and len(n.targets) == 1 and isinstance(n.targets[0], ast.Name):
+            assigns.setdefault(n.targets[0].id, []).append(n.value)
+
+    def table(expr):
+        return [intexpr.ev(expr, {'fo': b}) for b in range(256)]
+    want = {'n': [(b & 3) + 1 for b in range(256)], 'b': [(b >> 4) & 3 for b in range(256)], 'sf': [(b >> 2) & 3 for b in range(256)]}
+    for var, ref in want.items():
+        exprs = [e for e in assigns.get(var, []) if 'fo' in names_used(e)]
+        if not exprs:
+            raise AnalysisError('REAL field `%s` not extracted from the first octet in %s' % (var, d.short))
+        try:
+            ok = table(exprs[0]) == ref
+        except intexpr.NotPure as x:
+            raise AnalysisError('REAL field `%s`: %s' % (var, x))
+        ctx.ob('W.realfmt', d, 'decoder field %s = %s' % (var, {'n': 'exponent length bits + 1', 'b': 'base bits (6-5)', 'sf': 'scale factor bits (4-3)'}[var]),
+               ok, '`%s`' % norm(exprs[0]), node=exprs[0])
+    src = [norm(s) for s in walk_own(d.node) if isinstance(s, ast.stmt)]
+    ok = any(isinstance(n, ast.If) and norm(n.test) == 'n == 4' and any(norm(s) == 'n = oct2int(chunk[0])' for s in n.body) for n in walk_own(d.node))
+    ctx.ob('W.realfmt', d, 'exponent length 4 means "next octet holds the length"', ok, '')
+    scal = {}
+    for n in walk_own(d.node):
+        if isinstance(n, ast.If) and isinstance(n.test, ast.Compare) and norm(n.test.left) == 'b' and isinstance(n.test.ops[0], ast.Eq):
+            arms, orelse = if_chain(n)
+            for test, body in arms:
+                k = const_int(test.comparators[0])
+                for s_ in body:
+                    if isinstance(s_, ast.AugAssign) and norm(s_.target) == 'e' and isinstance(s_.op, ast.Mult):
+                        scal[k] = const_int(s_.value)
+    ctx.ob('W.realfmt', d, 'exponent scaled by 3 for base 8 and by 4 for base 16', scal == {1: 3, 2: 4}, 'found %r' % scal)
+    sign = [n for n in walk_own(d.node) if isinstance(n, ast.If) and any(norm(s_) == 'p = -p' for s_ in n.body)]
+    ok = len(sign) == 1 and intexpr.accept_set(sign[0].test, 'fo', range(256)) == set(b for b in range(256) if b & 0x40)
+    ctx.ob('W.realfmt', d, 'bit 7 is the sign of the mantissa', ok, '')
+    ok = False
+    for n in walk_own(d.node):
+        if isinstance(n, ast.AugAssign) and norm(n.target) == 'p' and isinstance(n.op, ast.Mult) and 'sf' in names_used(n.value):
+            try:
+                ok = [intexpr.ev(n.value, {'sf': k}) for k in range(4)] == [1, 2, 4, 8]
+            except intexpr.NotPure:
+                ok = False
+    ctx.ob('W.realfmt', d, 'mantissa multiplied by 2**scale', ok, '')
+    from sa.rules.wire import _subst
+    ext = [e for e in assigns.get('e', []) if 'eo' in names_used(e)]
+    ok = False
+    for e_ in ext:
+        try:
+            t = _subst(e_, {'eo[0]': '__x'})
+            ok = ok or [intexpr.ev(t, {'__x': b}) for b in range(256)] == [(-1 if b & 0x80 else 0) for b in range(256)]
+        except intexpr.NotPure:
+            pass
+    ctx.ob('W.realfmt', d, 'exponent is sign-extended from its first octet', ok, [norm(e_) for e_ in ext])
+    # ---- encoder
+    e = ctx.func('codec.ber.encoder.RealEncoder.encodeValue')
+    ors = {}
+    for n in walk_own(e.node):
+        if isinstance(n, ast.AugAssign) and norm(n.target) == 'fo' and isinstance(n.op, ast.BitOr):
+            conds = [norm(a.test) for a in ancestors(n, e.node) if isinstance(a, ast.If)]
+            ors[norm(n.value)] = conds
+    base8 = [k for k, c in ors.items() if const_int(ast.parse(k, mode='eval').body) == 0x10]
+    base16 = [k for k, c in ors.items() if const_int(ast.parse(k, mode='eval').body) == 0x20]
+    signb = [k for k, c in ors.items() if const_int(ast.parse(k, mode='eval').body) == 0x40 and any('ms < 0' in x for x in c)]
+    ctx.ob('W.realfmt', e, 'encoder sets base bits 01 for base 8, 10 for base 16, bit 7 for a negative mantissa',
+           bool(base8) and bool(base16) and bool(signb), 'ORed constants: %s' % sorted(ors))
+    ctx.ob('W.realfmt', e, 'encoder puts the scale factor into bits 4-3', 'sf << 2' in ors, '')
+    chain = [n for n in walk_own(e.node) if isinstance(n, ast.If) and norm(n.test) == 'n == 1']
+    okn = False
+    if len(chain) == 1:
+        arms, orelse = if_chain(chain[0])
+        m = {}
+        for test, body in arms:
+            k = const_int(test.comparators[0])
+            v = [const_int(s_.value) for s_ in body if isinstance(s_, ast.AugAssign) and norm(s_.target) == 'fo']
+            m[k] = v[0] if v else 0
+        ve = [const_int(s_.value) for s_ in orelse if isinstance(s_, ast.AugAssign) and norm(s_.target) == 'fo']
+        pre = any(norm(s_) == 'eo = int2oct(n & 255) + eo' for s_ in orelse)
+        okn = m == {1: 0, 2: 1, 3: 2} and ve == [3] and pre
+    ctx.ob('W.realfmt', e, 'exponent length 1/2/3 -> bits 00/01/10, longer -> 11 + length octet', okn, '')
+    ok = any(isinstance(n, ast.Assign) and norm(n.targets[0]) == 'fo' and const_int(n.value) == 0x80 for n in walk_own(e.node))
+    ctx.ob('W.realfmt', e, 'binary encoding announced by bit 8', ok, '')
+    # special values
+    rets = [norm(r.value) for r in walk_own(e.node) if isinstance(r, ast.Return)]
+    ctx.ob('W.realfmt', e, 'PLUS-INFINITY = 40, MINUS-INFINITY = 41', '((64,), False, False)' in rets and '((65,), False, False)' in rets, '')
